@@ -203,3 +203,76 @@ for _t, _c in (('d3', ''), ('nq', '  n = q;'), ('dq', '  d = q;'), ('nd', '  d =
     if _t == 'nq':
         _v['tier'] = 'quick'; _v['selftest'] = [('__gmpz_tdiv_q', r'if \(np == qp\)', 'if (0)'), ('__gmpz_tdiv_q', r'\(ns \^ ds\) >= 0 \? ql : -ql', '(ns ^ ds) > 0 ? ql : -ql')]
     UNITS.append(_v)
+
+# ------------------------------------------------------------------ mpz_{t,f,c}div_ui and mpz_{t,f,c}div_r_ui over the ASSUMED contract of mpn_mod_1
+MOD1_CONTRACT = '''_Bool g_div0_expected; int g_m1_calls; mp_limb_t g_m1_u, g_m1_d, g_m1_res; long g_m1_n;
+void __gmp_divide_by_zero (void) { __CPROVER_assert (g_div0_expected, "[C02] DIVIDE_BY_ZERO is raised only when the divisor is zero"); __CPROVER_assume (0); }
+/* ASSUMED (not proved by any unit): mpn_mod_1 ({up,n}, d) for n >= 1, d != 0 returns {up,n} mod d, a limb below d (an abstract value g_m1_res here) */
+mp_limb_t __gmpn_mod_1 (mp_srcptr up, mp_size_t n, mp_limb_t d)
+__CPROVER_requires (1 <= n && n <= V_ZMAX && V_R_OK (up, n) && d != 0 && 0 <= gk)
+__CPROVER_assigns (g_m1_calls, g_m1_u, g_m1_d, g_m1_res, g_m1_n)
+__CPROVER_ensures (g_m1_calls == __CPROVER_old (g_m1_calls) + 1 && g_m1_n == n && g_m1_d == d && g_m1_u == V_OLDSEL (gk < n, up + gk))
+__CPROVER_ensures (__CPROVER_return_value == g_m1_res && g_m1_res < d);
+'''
+def _ui_unit(kind, with_rem):
+    f = '__gmpz_%sdiv_%sui' % (kind, 'r_' if with_rem else '')
+    adj = {'t': '0', 'f': '(ns < 0)', 'c': '(ns >= 0)'}[kind]                 # when the truncated remainder t != 0 is replaced by d - t
+    rsign = {'t': '(ns < 0)', 'f': '0', 'c': '1'}[kind]                      # sign of a non-zero remainder: dividend / non-negative / non-positive
+    what = {'t': 'truncation: remainder has the sign of n, |r| = |n| mod d', 'f': 'floor: 0 <= r < d, r = d - (|n| mod d) for negative n with a non-zero remainder',
+            'c': 'ceiling: -d < r <= 0, |r| = d - (|n| mod d) for non-negative n with a non-zero remainder'}[kind]
+    if with_rem:
+        contract = '''mpir_ui %s (mpz_ptr rem, mpz_srcptr dividend, mpir_ui divisor)
+__CPROVER_requires (V_WF (rem) && V_WF (dividend) && V_GHOSTS_OK)
+__CPROVER_assigns (*rem, __CPROVER_object_whole (V_PTR (rem)), g_m1_calls, g_m1_u, g_m1_d, g_m1_res, g_m1_n)
+__CPROVER_frees (V_PTR (rem))
+__CPROVER_ensures (V_WF_AT (rem, gk));
+''' % f
+        objs = mpz_obj('R') + mpz_obj('N') + '  mpz_ptr r = &R; mpz_srcptr n = &N;\n  if (nondet_bool ()) n = r;\n'
+        call = '%s (r, n, d)' % f
+        wf = ' && V_WF (r)'
+    else:
+        contract = '''mpir_ui %s (mpz_srcptr dividend, mpir_ui divisor)
+__CPROVER_requires (V_WF (dividend) && V_GHOSTS_OK)
+__CPROVER_assigns (g_m1_calls, g_m1_u, g_m1_d, g_m1_res, g_m1_n);
+''' % f
+        objs = mpz_obj('N') + '  mpz_srcptr n = &N;\n'
+        call = '%s (n, d)' % f
+        wf = ''
+    h = '''void h_%(name)s (void) {
+%(objs)s  mpir_ui d = nondet_ulong ();
+  gk = nondet_long (); gj = nondet_long (); gh = nondet_long ();
+  __CPROVER_assume (V_GHOSTS_OK && V_WF (n)%(wf)s);
+  long ns = V_SIZ (n), nl = V_ABS (ns); mp_limb_t Nk = gk < nl ? V_PTR (n)[gk] : 0;
+  g_div0_expected = (d == 0); g_m1_calls = 0;
+  mpir_ui ret = %(call)s;
+  __CPROVER_assert (d != 0, "[C02] returned normally, so the divisor was not zero");
+  if (ns == 0)
+    __CPROVER_assert (ret == 0 && g_m1_calls == 0, "[C02] 0 / d: remainder 0");
+  else
+    {
+      __CPROVER_assert (g_m1_calls == 1 && g_m1_n == nl && g_m1_d == d && g_m1_u == Nk, "[C02] one single-limb reduction of the limbs of |n| by d");
+      mp_limb_t t = g_m1_res;
+      __CPROVER_assert (ret == ((t != 0 && %(adj)s) ? d - t : t) && ret < d, "[C02] return value is |r| - %(what)s");
+    }
+%(rempost)s}'''
+    rempost = ''
+    if with_rem:
+        rempost = '''  __CPROVER_assert (ret == 0 ? V_SIZ (r) == 0 : (V_ABS ((long) V_SIZ (r)) == 1 && V_PTR (r)[0] == ret && (V_SIZ (r) < 0) == (_Bool) %s), "[C02] remainder stored: magnitude = return value, sign per rounding rule");
+  if (n != r) __CPROVER_assert ((long) V_SIZ (n) == ns && (gk < nl ==> V_PTR (n)[gk] == Nk), "[C05] dividend (not the output) unchanged");
+''' % rsign
+    name = f[len('__g'):].replace('mpz_', 'mpz_')
+    name = 'mpz_%sdiv_%sui' % (kind, 'r_' if with_rem else '')
+    muts = {('t', False): [(r'return rl;', 'return rl + (ns < 0);')],
+            ('f', False): [(r'if \(ns < 0\)', 'if (ns <= 0 && rl > 1)')],
+            ('c', False): [(r'if \(ns >= 0\)', 'if (ns > 0 || rl == 1)')],
+            ('t', True): [(r'ns >= 0 \? 1 : -1', 'ns >= 0 ? 1 : 1')],
+            ('f', True): [(r'rl = divisor - rl;', 'rl = divisor - rl - (rl == 1);')],
+            ('c', True): [(r'\(\(rem\)->_mp_size\) = -1;', '((rem)->_mp_size) = 1;')]}[(kind, with_rem)]
+    return dict(name=name, props=['C02', 'C04', 'C05', 'C15'] if with_rem else ['C02', 'C15'], source='mpz/%sdiv_%sui.c' % (kind, 'r_' if with_rem else ''),
+                contracts=['mpn.h', 'mpz.h'], contract_text=MOD1_CONTRACT + contract, enforce=[f], replace=['__gmpn_mod_1'],
+                assumptions=['mpn_mod_1: ASSUMED contract (n >= 1, d != 0; returns an abstract value below d that stands for {up,n} mod d); the remainder VALUE is not specified'],
+                harness=h % dict(name=name, objs=objs, wf=wf, call=call, adj=adj, what=what, rempost=rempost), timeout=600,
+                selftest=[(f, a, b) for a, b in muts])
+for _k in 'tfc':
+    for _wr in (False, True):
+        UNITS.append(_ui_unit(_k, _wr))
